@@ -425,7 +425,14 @@ impl LexiconReader {
             }
 
             if e.dic_form != WordId::INVALID {
-                ctx.transform(Self::validate_wid(e.dic_form, max_0, max_1, "dic_form"))?;
+                // the dictionary form is resolved inside the word's own lexicon when the dictionary
+                // is loaded, so it must be a plain index into this file
+                ctx.transform(Self::validate_wid(
+                    e.dic_form,
+                    self.entries.len(),
+                    0,
+                    "dic_form",
+                ))?;
             }
 
             for s in e.splits_a.iter() {
